@@ -129,12 +129,12 @@ func crashProp(c Case, x *h.Ctx) *h.Violation {
 		}
 		dir, err := crash.Materialize(fs, work)
 		if err != nil {
-			panic(err)
+			panic(h.Infra{Msg: "harness file operation failed: " + err.Error()})
 		}
 		defer os.RemoveAll(dir)
 		o, err := Options(dir, c)
 		if err != nil {
-			panic(err)
+			panic(h.Infra{Msg: "harness file operation failed: " + err.Error()})
 		}
 		got, err := ReplayAll(o)
 		if err != nil {
